@@ -123,6 +123,31 @@ func generate(w *mon.W) {
 		c := &Case{X: tr.x, Pos: tr.pos, Seed: 4}
 		w.Do("w|"+tr.pos+"|"+Canon(tr.x), func(r *mon.R) { Check(c, r) })
 	}
+	// every integer spelling (leading zeros, hexadecimal, around 2^31, 2^32,
+	// 2^53, 2^63, 2^64 and beyond) alone and as an operand at every position
+	for _, lit := range gen.IntSpellings {
+		for _, pos := range positions {
+			var xs []*E
+			switch pos {
+			case "take":
+				xs = []*E{Num(lit)}
+			case "where", "where-then-lets", "join-on", "join-on-nested":
+				xs = []*E{Bin("==", Name("ia"), Num(lit)), Bin("<", Un("-", Num(lit)), Name("ib"))}
+			default:
+				xs = []*E{Bin("+", Name("ia"), Num(lit)), Un("-", Num(lit)), Idx(Name("ma"), Num(lit))}
+			}
+			for _, x := range xs {
+				if pos == "join-on" || pos == "join-on-nested" {
+					x = exprpos.Joinify(x, nil, gen.RNG(1, lit))
+				}
+				if pos == "let" || pos == "let-chain" {
+					x = Bin("+", Num("1"), Num(lit))
+				}
+				c := &Case{X: x, Pos: pos, Seed: 5}
+				w.Do("n|"+pos+"|"+Canon(x), func(r *mon.R) { Check(c, r) })
+			}
+		}
+	}
 	rng := gen.RNG(w.Seed, "c01")
 	n := w.Pick(6_000, 300_000)
 	for i := 0; i < n && !w.Stopped(); i++ {
